@@ -223,6 +223,12 @@ impl<'p> CoroutinePool<'p> {
             if self.get_running_size() == 0 || timeout_time.saturating_sub(now()) == 0 {
                 break;
             }
+            #[cfg(feature = "verif")]
+            if crate::verif::virtual_clock().is_some() {
+                // virtual time: the nap is a clock step
+                crate::verif::advance_virtual_clock(1_000_000);
+                continue;
+            }
             std::thread::sleep(Duration::from_millis(1));
         }
         if self.get_running_size() > 0 {
@@ -326,6 +332,8 @@ impl<'p> CoroutinePool<'p> {
                 }
             }
         }
+        #[cfg(feature = "verif")]
+        crate::verif::point("wait_task_result:before_register", task_id, 0);
         let arc = if let Some(arc) = self.waits.get(&task_id) {
             arc.clone()
         } else {
@@ -482,6 +490,8 @@ impl<'p> CoroutinePool<'p> {
             // todo windows support
             #[allow(unused_variables)]
             if let Some(pthread) = Scheduler::get_scheduling_thread(co_name) {
+                #[cfg(feature = "verif")]
+                crate::verif::point("try_cancel_task:before_kill", task_id, co_name);
                 // 发送SIGVTALRM信号，在运行时取消任务
                 #[cfg(unix)]
                 if nix::sys::pthread::pthread_kill(pthread, nix::sys::signal::Signal::SIGVTALRM)
